@@ -93,27 +93,28 @@ TARGETS = [f"{FAST}.add_doc", f"{FAST}.add_variable", f"{FAST}.add_scope", "fort
 
 def structure_items(repo):
     items = []
+    from pyvc import shape
     pd = repo.func(f"{PARSER}.parse_docs")
-    src = ast.unparse(pd.node)
-    ok = ("if docs and doc_match.group(1) == '>':\n        add_line_comment(file_ast, docs)" in src
-          and src.index("if docs and doc_match.group(1) == '>'") < src.index("self.get_docstring(ln, line, doc_match, docs)")
-          and "file_ast.add_doc(format(docs), forward=predocmark)" in src)
+    spd = shape.of(repo, f"{PARSER}.parse_docs")
+    ok = (shape.has(spd, "if docs and doc_match.group(1) == '>':\n    add_line_comment(file_ast, docs)")
+          and shape.before(spd, "add_line_comment(file_ast, docs)", "self.get_docstring(ln, line, doc_match, docs)")
+          and shape.has(spd, "file_ast.add_doc(format(docs), forward=predocmark)"))
     items.append(Item("C11/FortranFile.parse_docs/ensures.trailing_doc_flushed_before_forward_block", "proved" if ok else "refuted",
                       "structural", 0.0, where=pd.where(), mode="table", func=pd.qualname,
                       detail="documentation trailing the previous entity is attached to it before a '!>' block starts; a block is "
                              "attached forward exactly when its first mark is '>'"))
     gd = repo.func(f"{PARSER}.get_docstring")
-    src = ast.unparse(gd.node)
-    ok = ("predocmark = True if match.group(1) == '>' else False" in src
-          and "if not match or (not predocmark and match.group(1) == '>'):" in src)
+    sgd = shape.of(repo, f"{PARSER}.get_docstring")
+    ok = (shape.has(sgd, "predocmark = True if match.group(1) == '>' else False")
+          and shape.has(sgd, "not match or (not predocmark and match.group(1) == '>')"))
     items.append(Item("C11/FortranFile.get_docstring/ensures.backward_block_ends_at_forward_mark", "proved" if ok else "refuted",
                       "structural", 0.0, where=gd.where(), mode="table", func=gd.qualname,
                       detail="a block documenting the previous entity ends at the first '!>' line"))
     fs = repo.func(f"{LS}.serve_signature")
-    src = ast.unparse(fs.node)
-    ok = ("arg_string, sections = get_paren_level(strip_strings(line, True))" in src and "arg_string.split(',')" in src
-          and "param_num = len(arg_strings) - 1" in src and "opt_num = check_optional(arg_strings[-1], params)" in src
-          and "param_num = opt_num" in src and "'activeParameter': param_num" in src)
+    sfs = shape.of(repo, f"{LS}.serve_signature")
+    ok = (shape.has(sfs, "arg_string, sections = get_paren_level(strip_strings(line, True))") and shape.has(sfs, "arg_string.split(',')")
+          and shape.has(sfs, "param_num = len(arg_strings) - 1") and shape.has(sfs, "opt_num = check_optional(arg_strings[-1], params)")
+          and shape.has(sfs, "param_num = opt_num") and shape.has(sfs, "'activeParameter': param_num"))
     items.append(Item("C11/LangServer.serve_signature/ensures.active_parameter", "proved" if ok else "refuted", "structural", 0.0,
                       where=fs.where(), mode="table", func=fs.qualname,
                       detail="arguments are the comma-separated pieces of the list with character literals blanked and nested parentheses removed; the active "
